@@ -71,8 +71,14 @@ func tableQSwitchCases(repo string) (string, error) {
 		if len(cases) < 10 || !hasDefault {
 			return "", fmt.Errorf("%s: expected a type switch with ≥10 cases and a default, got %d/%v", it.fn, len(cases), hasDefault)
 		}
-		if !strings.Contains(qp.str(clauses["default"]), "panic(") {
+		// QToProto's default clause panics (the model's Outcome.panic for kinds without a case); since the fix
+		// "QFromProto returns an error for a missing query or an unset oneof" QFromProto's default returns an error.
+		def := qp.str(clauses["default"])
+		if it.fn == "QToProto" && !strings.Contains(def, "panic(") {
 			return "", fmt.Errorf("%s: default clause no longer panics; re-read the function and update the model", it.fn)
+		}
+		if it.fn == "QFromProto" && (strings.Contains(def, "panic(") || !strings.Contains(def, "return nil, ")) {
+			return "", fmt.Errorf("%s: default clause no longer returns an error; re-read the function and update the model", it.fn)
 		}
 		sb.WriteString(fmt.Sprintf("def %s : List String := %s\n", it.lean, leanStrList(cases)))
 	}
